@@ -3,6 +3,11 @@ mod canon;
 mod fw;
 mod sess;
 mod refm;
+mod genprog;
+mod alloc;
+
+#[global_allocator]
+static GLOBAL: alloc::Counting = alloc::Counting;
 mod props;
 
 use fw::*;
